@@ -52,6 +52,10 @@ class CaseTimeout(BaseException):
     pass
 
 
+class StopShard(BaseException):
+    """raised by begin_case when a history replay has executed the requested prefix of a shard"""
+
+
 class Ctx:
     """Accumulates what one worker (or one replay) observed."""
 
@@ -70,9 +74,13 @@ class Ctx:
         self.auto_samples = []         # a few of the enumerated cases, recorded by the driver itself
         self.harness_errors = []
         self._case = None
+        self.shard = None              # descriptor of the shard being enumerated (for history replays)
+        self.stop_after = None         # history replay: stop after this many cases of the shard
 
     # ---- bookkeeping used by property modules
     def begin_case(self, case):
+        if self.stop_after is not None and self.evals >= self.stop_after:
+            raise StopShard()
         self.evals += 1
         self._case = case
         if self.evals in (1, 7, 50, 400, 3000) and len(self.auto_samples) < MAX_SAMPLES:
@@ -115,7 +123,7 @@ class Ctx:
         self.viol_keys[key] += 1
         if len(self.viol) < MAX_KEPT_VIOLATIONS or self.viol_keys[key] == 1:
             self.viol.append({'clause': clause, 'witness_key': key, 'detail': str(detail)[:2000],
-                              'case': case if case is not None else self._case})
+                              'case': case if case is not None else self._case, 'shard': self.shard, 'index': self.evals})
 
     @contextlib.contextmanager
     def time_limit(self, seconds):
@@ -208,6 +216,7 @@ def _worker_run(i_shard):
     i, shard = i_shard
     prop_id, tier, seed = _W['args']
     ctx = Ctx(prop_id, tier, seed)
+    ctx.shard = shard
     mod = _W['mod']
     t0 = time.time()
     try:
@@ -233,7 +242,8 @@ def write_replay(prop_id, v, seed):
     d = os.path.join(VERIF, 'replays', prop_id)
     os.makedirs(d, exist_ok=True)
     doc = {'property': prop_id, 'seed': seed, 'clause': v['clause'], 'witness_key': v['witness_key'],
-           'detail': v['detail'], 'case': v['case']}
+           'detail': v['detail'], 'case': v['case'], 'shard': v.get('shard'), 'index': v.get('index'), 'tier': v.get('tier'),
+           'needs_history': bool(v.get('needs_history'))}
     sha = hashlib.sha1(json.dumps([prop_id, v['witness_key'], v['case']], sort_keys=True).encode()).hexdigest()[:16]
     path = os.path.join(d, sha + '.json')
     with open(path, 'w') as f:
@@ -241,26 +251,41 @@ def write_replay(prop_id, v, seed):
     return path
 
 
-def fresh_replay(prop_id, path):
+def fresh_replay(prop_id, path, history=False):
     env = dict(os.environ)
-    p = subprocess.run([os.path.join(VERIF, 'check'), prop_id, '--replay', path, '--json'], env=env,
+    p = subprocess.run([os.path.join(VERIF, 'check'), prop_id, '--replay', path, '--json'] + (['--history'] if history else []), env=env,
                        stdout=subprocess.PIPE, stderr=subprocess.PIPE, text=True, timeout=900)
     lines = [l for l in p.stdout.splitlines() if l.startswith('OBS ')]
     return p.returncode, (lines[-1][4:] if lines else None), p.stderr[-800:]
 
 
-def replay(prop_id, path, as_json=False):
+def replay(prop_id, path, as_json=False, history=False):
+    """Re-executes one recorded case in this (fresh) interpreter.  With history (or when the replay file says it needs it) the
+    cases that the shard enumerated BEFORE the recorded one are executed first: some violations only show after earlier calls
+    (state kept between calls by the code under test)."""
     logging.disable(logging.CRITICAL)
     mod = load_prop(prop_id)
     with open(path) as f:
         doc = json.load(f)
     seed = int(os.environ.get('VERIF_SEED', doc.get('seed', 0)))
+    history = history or bool(doc.get('needs_history'))
     buf = io.StringIO()
-    ctx = Ctx(prop_id, 'quick', seed)
+    tier = doc.get('tier') or 'quick'
+    ctx = Ctx(prop_id, tier if history else 'quick', seed)
     with contextlib.redirect_stdout(buf):
-        if hasattr(mod, 'setup'):
-            mod.setup('replay')
-        guarded_check(mod, doc['case'], ctx)
+        if history and doc.get('shard') is not None and doc.get('index'):
+            if hasattr(mod, 'setup'):
+                mod.setup(tier)
+            ctx.shard, ctx.stop_after = doc['shard'], int(doc['index'])
+            try:
+                mod.run_shard(doc['shard'], ctx, tier)
+            except StopShard:
+                pass
+            ctx.viol = [v for v in ctx.viol if v.get('index') == int(doc['index'])]
+        else:
+            if hasattr(mod, 'setup'):
+                mod.setup('replay')
+            guarded_check(mod, doc['case'], ctx)
     if ctx.harness_errors:
         print('HARNESS-ERROR', ctx.harness_errors[0])
         return 2
@@ -268,7 +293,8 @@ def replay(prop_id, path, as_json=False):
     if as_json:
         print('OBS ' + json.dumps(obs, sort_keys=True))
         return 1 if obs else 0
-    print(f'replay of {path}: case = {json.dumps(doc["case"])[:1500]}')
+    print(f'replay of {path}: case = {json.dumps(doc["case"])[:1500]}' +
+          (f' (after the {int(doc["index"]) - 1} preceding cases of its shard)' if history and doc.get('index') else ''))
     for c, k, d in obs:
         print(f'  violated clause={c} witness_key={k}\n    {d}')
     if not obs:
@@ -309,7 +335,9 @@ def run_check(prop_id, tier, workers=16, confirm=True, write_evidence=True):
     tot = Ctx(prop_id, tier, seed)
     done_shards, capped = 0, False
     mpctx = multiprocessing.get_context('fork')
-    with mpctx.Pool(workers, initializer=_worker_init, initargs=(prop_id, tier, seed)) as pool:
+    # maxtasksperchild=1: every shard runs in a freshly forked worker, so state that the code under test keeps between calls can only
+    # come from the cases of the same shard (which is what a history replay re-executes)
+    with mpctx.Pool(workers, initializer=_worker_init, initargs=(prop_id, tier, seed), maxtasksperchild=1) as pool:
         it = pool.imap_unordered(_worker_run, list(enumerate(shards)), chunksize=1)
         results = []
         while True:
@@ -354,6 +382,7 @@ def run_check(prop_id, tier, workers=16, confirm=True, write_evidence=True):
     recorded = {k['witness_key']: k for k in known if k.get('status') == 'recorded'}
     by_key = collections.OrderedDict()
     for v in tot.viol:
+        v['tier'] = tier
         by_key.setdefault(v['witness_key'], v)
     new_keys = [k for k in by_key if k not in recorded]
     known_hit = [k for k in by_key if k in recorded]
@@ -368,14 +397,23 @@ def run_check(prop_id, tier, workers=16, confirm=True, write_evidence=True):
         replays[k] = write_replay(prop_id, by_key[k], seed)
 
     if new_keys and confirm:
-        # a violation is only reported if it reproduces, identically, twice, in a fresh interpreter
+        # a violation is only reported if it reproduces, identically, twice, in a fresh interpreter: first the recorded case alone,
+        # and if that does not show it, the case after the preceding cases of its shard (state kept between calls)
         for k in new_keys[:6]:
             a = fresh_replay(prop_id, replays[k])
-            b = fresh_replay(prop_id, replays[k])
-            ok = a[0] == 1 and b[0] == 1 and a[1] == b[1] and a[1] is not None and k in (a[1] or '')
+            bb = fresh_replay(prop_id, replays[k])
+            ok = a[0] == 1 and bb[0] == 1 and a[1] == bb[1] and a[1] is not None
+            if not ok and by_key[k].get('shard') is not None:
+                a = fresh_replay(prop_id, replays[k], history=True)
+                bb = fresh_replay(prop_id, replays[k], history=True)
+                ok = a[0] == 1 and bb[0] == 1 and a[1] == bb[1] and a[1] is not None
+                if ok:
+                    by_key[k]['needs_history'] = True
+                    by_key[k]['detail'] = '[shows only after the preceding cases of its shard: state kept between calls] ' + by_key[k]['detail']
+                    replays[k] = write_replay(prop_id, by_key[k], seed)
             if not ok:
                 print(f'HARNESS-ERROR nondeterminism: replay of {replays[k]} did not reproduce '
-                      f'(rc {a[0]}/{b[0]}, same_obs={a[1] == b[1]}) {a[2][-300:]}')
+                      f'(rc {a[0]}/{bb[0]}, same_obs={a[1] == bb[1]}) {a[2][-300:]}')
                 rc = 2
     for k in known_hit:
         lines.append(f'KNOWN-FINDING: property={prop_id} {recorded[k]["what"]} [witness_key={k} cases={tot.viol_keys[k]}]')
